@@ -61,6 +61,10 @@ type EvmClient struct {
 type txnDetails struct {
 	nonce   uint64
 	created time.Time
+	// cancelled is set once the monitor reported the transaction as replaced.
+	// The entry is kept so that a later WaitForReceipt still learns the
+	// outcome, but it is no longer pending.
+	cancelled bool
 }
 
 func New(
@@ -227,9 +231,16 @@ func (c *EvmClient) waitForTxn(txnHash common.Hash, nonce uint64) {
 		receipt := <-res
 		if receipt.Err != nil {
 			c.logger.Warn("failed to get receipt", "err", receipt.Err)
-			if !errors.Is(err, ErrTxnCancelled) {
+			if !errors.Is(receipt.Err, ErrTxnCancelled) {
 				return
 			}
+			c.mtx.Lock()
+			if d, ok := c.sentTxs[txnHash]; ok {
+				d.cancelled = true
+				c.sentTxs[txnHash] = d
+			}
+			c.mtx.Unlock()
+			return
 		} else {
 			switch receipt.Receipt.Status {
 			case types.ReceiptStatusSuccessful:
@@ -271,6 +282,9 @@ func (c *EvmClient) WaitForReceipt(
 	c.mtx.Unlock()
 	if !ok {
 		return nil, fmt.Errorf("tx not found")
+	}
+	if d.cancelled {
+		return nil, fmt.Errorf("failed to get receipt: %w", ErrTxnCancelled)
 	}
 
 	res, err := c.monitor.watchTx(txHash, d.nonce)
@@ -390,6 +404,9 @@ func (c *EvmClient) PendingTxns() []TxnInfo {
 
 	var txns []TxnInfo
 	for hash, d := range c.sentTxs {
+		if d.cancelled {
+			continue
+		}
 		txns = append(txns, TxnInfo{
 			Hash:    hash.Hex(),
 			Nonce:   d.nonce,
